@@ -103,7 +103,9 @@ class ParserLogger:
 
     @classmethod
     def __munge(cls, show_whitespace: bool, log_format: str, args: List[Any]) -> str:
-        split_log_format = log_format.split("$")
+        # A format without arguments is a complete message: any `$` character in it
+        # is data (typically document text), not a substitution point.
+        split_log_format = log_format.split("$") if args else [log_format]
         split_log_format_length = len(split_log_format)
         args_length = len(args)
         if split_log_format_length != args_length + 1:
